@@ -455,6 +455,33 @@ def run_case(case):
                                   f"another dataset: {problems[:1] or _same(np, want, got)}"})
             else:
                 obs["other_volume_refused"] = 1
+        # ---- --generate-info into a directory that still holds the description of another
+        # volume: refused, or (exit status 0) the description now is that of THIS volume
+        if route == "pair" and not v and case["vseed"] % 3 == 1:
+            S = os.path.join(top, "S")
+            other = (vol.astype(np.float32) if dt.kind != "f" else
+                     np.clip(vol, 0, 200).astype(np.uint8))
+            fn3 = os.path.join(top, "v3.nii")
+            nibabel.save(nibabel.Nifti1Image(other, aff), fn3)
+            run("volume_to_precomputed", "--generate-info", fn3, S, expect_ok=False)
+            rc, _ = run("volume_to_precomputed", "--generate-info", *scaling, fn, S,
+                        expect_ok=False)
+            obs["generate_info_over_a_stale_description"] = 1
+            try:
+                with open(os.path.join(S, "info_fullres.json")) as fh:
+                    now = json.load(fh)
+                with open(os.path.join(B, "info_fullres.json")) as fh:
+                    mine = json.load(fh)
+            except Exception as exc:  # noqa: BLE001
+                now = mine = None
+                v.append({"kind": "generated-file-missing-or-invalid",
+                          "detail": f"{ctx}: {type(exc).__name__}"})
+            if now is not None and rc in (0, 4) and now != mine:
+                v.append({"kind": "successful-command-did-not-write-the-info-it-was-asked-to-"
+                          "produce", "detail": f"{ctx}: `{log[-1]}` into a directory holding "
+                          f"another volume's info_fullres.json: data_type "
+                          f"{now.get('data_type')} left in place, this volume's is "
+                          f"{mine.get('data_type')}"})
     except subprocess.TimeoutExpired as exc:
         v.append({"kind": "command-timeout", "detail": f"{ctx}: {exc}"})
     finally:
